@@ -1,1 +1,2 @@
-(* Props/C01.v -- stub, to be filled *)
+(* C01 statements pinned here *)
+From A1 Require Import Uper.Reader.
